@@ -557,6 +557,14 @@ def data_programs():
                 p.data(d, v, 3)
         p.label('E')
         yield p
+    # values that do not fit: every one must be refused (one program each)
+    for d, w in widths.items():
+        lo, hi = -(1 << (8 * w - 1)), (1 << (8 * w)) - 1
+        for v in (lo - 1, hi + 1, lo - 2, 2 * lo, 2 * hi + 1, -(1 << (8 * w)), (1 << (8 * w)) + 5, lo - 128, -(1 << (8 * w)) - 1):
+            for lead in ((), (1,)) if not d.startswith('d') else ((),):
+                p = Prog('data-refuse:%s:%d:%d' % (d, v, len(lead)))
+                p.add('%s %s' % (d, ' '.join(str(x) for x in tuple(lead) + (v,))), kind='data', d=d, values=list(lead) + [v], must_refuse=True)
+                yield p
     p = Prog('data:pack')
     for fmt, v in [('<B', 255), ('<b', -128), ('<H', 65535), ('>H', 0x1234), ('<h', -2), ('<I', 0xdeadbeef), ('>I', 0xdeadbeef),
                    ('<i', -5), ('<Q', 2 ** 64 - 1), ('<q', -2 ** 63), ('>q', 7), ('<L', 9), ('<l', -9)]:
